@@ -375,12 +375,26 @@ pub async fn drive<F: Future>(
     match tokio::time::timeout(Duration::from_secs(stall_secs()), run).await {
         Ok(Ok(v)) => Ok((v, polls)),
         Ok(Err(e)) => Err(e),
-        Err(_) => Err(DriveErr::Stalled),
+        Err(_) => {
+            STALLS.fetch_add(1, Ordering::SeqCst);
+            Err(DriveErr::Stalled)
+        }
     }
 }
 
+static STALLS: AtomicUsize = AtomicUsize::new(0);
+
+/// Machinery timeout after which "Pending, no waker the harness can fire, no wake-up" is called a
+/// stall. The only legitimate wait is one blocking-pool hand-off (milliseconds); 10 s leaves room
+/// for a heavily loaded machine. After 32 stalls in one run the wait drops to 2 s so that a
+/// systematically hanging subject cannot blow the wall budget.
 fn stall_secs() -> u64 {
-    std::env::var("VERIF_STALL_S").ok().and_then(|s| s.parse().ok()).unwrap_or(30)
+    let base = std::env::var("VERIF_STALL_S").ok().and_then(|s| s.parse().ok()).unwrap_or(10);
+    if STALLS.load(Ordering::SeqCst) >= 32 {
+        base.min(2)
+    } else {
+        base
+    }
 }
 
 // ---------------------------------------------------------------------------------------------
